@@ -126,7 +126,11 @@ def _run_alg(case, fn, algname, lo, hi, name):
     nt = evals = 0
     for rep in range(case["reps"]):
         s, t, meta = gen_mixture(rng, big=(rep == 0 and case["index"] % 5 == 0))
-        c = core.Call(fn, s.copy(), t.copy(), algname)
+        s_in, t_in = s.copy(), t.copy()
+        c = core.Call(fn, s_in, t_in, algname)
+        if not (np.array_equal(s_in, s) and np.array_equal(t_in, t)):
+            # values are owed to the PSMs in the order the caller passed them; reordering the caller's arrays breaks that
+            res.violate("input_mutated", algname, **meta)
         evals += 1
         res.count(algname + "_calls")
         extra = dict(alg=algname, **meta)
